@@ -174,7 +174,11 @@ def navisAttrs (n rows : Nat) : List AttrSpec → List Nat → Option (List (Lis
         | some vss => some (vs :: vss)
 
 /-- **The reader that exists** (`PrecomputedSkeletonReader.read_buffer`): short reads are accepted as
-long as what is available reshapes; trailing bytes are ignored. -/
+long as what is available reshapes; trailing bytes are ignored.
+Limit: the read sizes `int(3 * 4 * num_nodes)` are computed by numpy in `uint32` and wrap for
+`num_nodes ≥ 2^32 / 12`; the model computes them in `Nat` (it is compared with the code only on files
+whose header counts are far below that). The `int32` cast of the parent column is not modelled either
+(row indices `< 2^31`). -/
 def navisReadSkel (specs : List AttrSpec) (bs : List Nat) : Option Skel :=
   match readWord 4 bs with
   | none => none
